@@ -281,11 +281,18 @@ func VerifyCosmosHeader(myHeader *CosmosHeader, info *CosmosEpochSwitchInfo) err
 		return fmt.Errorf("VerifyCosmosHeader, the size of precommits is not right!")
 	}
 	talliedVotingPower := int64(0)
-	for _, commitSig := range myHeader.Commit.Precommits {
+	for idx, commitSig := range myHeader.Commit.Precommits {
 		if commitSig == nil {
 			continue
 		}
-		idx := commitSig.ValidatorIndex
+		// The validator is identified by the position of the precommit in the commit
+		// (as tendermint's VerifyCommit does), never by the index recorded inside the
+		// vote: the recorded index is not covered by the signature, so trusting it lets
+		// one validator's precommit be copied into every slot and tallied many times.
+		if commitSig.ValidatorIndex != idx {
+			return fmt.Errorf("VerifyCosmosHeader, precommit at position %d carries validator index %d",
+				idx, commitSig.ValidatorIndex)
+		}
 		_, val := valset.GetByIndex(idx)
 		if val == nil {
 			return fmt.Errorf("VerifyCosmosHeader, validator %d doesn't exist!", idx)
